@@ -403,6 +403,8 @@ class Histogram1D(ObjectWithBinning, HistogramBase):
             self._frequencies[ixbin] = new_frequency
             self._errors2[ixbin] = new_error2
             try:
+                # In double precision, as fill_n does (a float32 value would make them single)
+                value = float(value)
                 self._stats = dataclasses.replace(
                     self.statistics,
                     weight=self.statistics.weight + weight,
